@@ -33,10 +33,10 @@ type vObserved struct {
 }
 
 type vReplayFile struct {
-	Entry  string       `json:"entry"`
-	Script []vScriptVal `json:"script"`
-	Tol    float64      `json:"tol"`
-	RealModel bool      `json:"real_model"`
+	Entry     string       `json:"entry"`
+	Script    []vScriptVal `json:"script"`
+	Tol       float64      `json:"tol"`
+	RealModel bool         `json:"real_model"`
 }
 
 type vReplayResult struct {
@@ -92,7 +92,7 @@ func (s *vScriptVal) fval() float64 {
 	}
 	return s.F
 }
-func vBool(label string) bool     { return vNext("bool").B }
+func vBool(label string) bool { return vNext("bool").B }
 func vChoice(label string, n int) int {
 	return int(vNext("choice").I)
 }
@@ -139,11 +139,11 @@ func vObserveF(tag string, v float64) {
 func vObserveB(tag string, v bool) {
 	vRes.Observed = append(vRes.Observed, vObserved{Tag: tag, Sort: "Bool", B: v})
 }
-func vCut(reason string)                     { panic(vCutSignal{reason}) }
-func vNote(msg string)                       {}
-func vAnd(a, b bool) bool                    { return a && b }
-func vOr(a, b bool) bool                     { return a || b }
-func vImplies(a, b bool) bool                { return !a || b }
+func vCut(reason string)      { panic(vCutSignal{reason}) }
+func vNote(msg string)        {}
+func vAnd(a, b bool) bool     { return a && b }
+func vOr(a, b bool) bool      { return a || b }
+func vImplies(a, b bool) bool { return !a || b }
 func vIteF(c bool, a, b float64) float64 {
 	if c {
 		return a
@@ -156,9 +156,9 @@ func vIteI(c bool, a, b int) int {
 	}
 	return b
 }
-func vSymbolic() bool                   { return false }
-func vDisjoint(a, b interface{}) bool   { return true } // decided by the engine only
-func vNondetCount() int                 { return 0 }
+func vSymbolic() bool                 { return false }
+func vDisjoint(a, b interface{}) bool { return true } // decided by the engine only
+func vNondetCount() int               { return 0 }
 
 // vRandUnscripted: in harnesses whose native run executes real code that the engine replaced by a stub
 // (cross-package redirects), math/rand draws that the script does not contain get fixed default values.
@@ -238,8 +238,12 @@ func vRunReplays(entries map[string]func()) {
 }
 
 // uninterpreted functions have no native counterpart: entries that use them cannot be replayed natively
-func vUF1(name string, x float64) float64    { panic(vDivergence{"uninterpreted function " + name + " has no native counterpart"}) }
-func vUF2(name string, x, y float64) float64 { panic(vDivergence{"uninterpreted function " + name + " has no native counterpart"}) }
+func vUF1(name string, x float64) float64 {
+	panic(vDivergence{"uninterpreted function " + name + " has no native counterpart"})
+}
+func vUF2(name string, x, y float64) float64 {
+	panic(vDivergence{"uninterpreted function " + name + " has no native counterpart"})
+}
 
 // vRealModel: the native run is IEEE arithmetic; the script file records which model produced it
 func vRealModel() bool { return vCur != nil && vCur.RealModel }
